@@ -13,18 +13,29 @@ CONF = dict(
           'under the client-to-server or a random key, wrong / previous / one-bit-off unique identifier, missing authenticator, missing identifier, bare 48-byte response, '
           'extension length 0 and 3, 16-byte identifier, nonce lengths 0/12/15/17/32, the genuine response of the previous exchange, authentic packet with malformed '
           'plaintext; silent peer (deadline); the genuine response from the server address but another port, and from another address with the server\'s port number. The same '
-          'over SCION (client.MeasureClockOffsetSCION, one client, empty path): NTP payload recipes wrapped into SCION/UDP packets, plus wrong source / destination ISD-AS, '
-          'wrong source / destination host, bytes that are not SCION, cut-off packets. Observed: the error of every exchange (call logger), the four timestamps combined (recording filter), the offset and error '
+          'over SCION (client.MeasureClockOffsetSCION, one client, empty path; kinds scion.hist, scion.auth, scion.nts, scion.ntsauth, scion.allfail, scion.allfailauth): NTP and '
+          'NTS payload recipes wrapped into SCION/UDP packets, plus wrong source / destination ISD-AS, wrong source / destination host, bytes that are not SCION, cut-off '
+          'packets; the client with Auth.Enabled (DRKey host-host key; the harness re-executes itself with USE_MOCK_KEYS=true) and the client without key are sent end-to-end '
+          'extensions with packet authenticators (SPAO): genuine MAC, one MAC bit flipped, random / zero MAC, timestamp / sequence-number bytes changed after or before the MAC '
+          'was computed, a bit of the NTP payload / of the SCION-UDP header / of the flow id flipped after the MAC was computed (the payload stays a valid response), a bit '
+          'outside the authenticated data flipped, MAC under another key, the client\'s SPI instead of the server\'s, another SPI, another algorithm, option length 12..44, two '
+          'authenticators (ignored+bad, good+bad, bad+good), end-to-end extension without authenticator, no extension at all, hop-by-hop extension in front (with good and bad MAC), '
+          'timestamp option (valid, one second in the past, malformed) with and without authenticator, unregistered path type; directed scripts: wrong MAC then genuine, two '
+          'wrong MACs then genuine (retry exhausted), wrong MAC then unauthenticated response, ignored authenticator alone; NTS over SCION (Auth.NTSEnabled, keys from the TLS '
+          'key exchange, server in another or in the client\'s ISD-AS) with every NTS recipe of the IP client, with and without the packet authenticator. Observed: the error of every exchange (call logger), the four timestamps combined (recording filter), the offset and error '
           'returned, the timestamp fields of every request on the wire. A history is non-trivial when at least one delivered datagram differs from a genuine response; '
           'distinct = distinct (kind, input)'),
     assumptions=['symbolic AEAD for the NTS clause (C05_nts_authentic: a ciphertext opens only if the key holder sealed it with exactly that associated data)',
                  'time.Time as unbounded nanoseconds; the kernel (which datagrams arrive, in which order, from where, with which receive stamp), the clock readings and, for '
-                 'SCION, the gopacket/scionproto parse and the CMAC comparison are inputs of the model, quantified over without restriction',
+                 'SCION, the gopacket/scionproto parse and the CMAC comparison are inputs of the model, quantified over without restriction (ideal MAC: the theorems speak about '
+                 '"the MAC of the authenticator the client looks at verifies", the harness decides that with scionproto spao.ComputeAuthCMAC under the mock key)',
                  'payloads are byte strings (0..255) for the oracle theorem'],
     trusted=['modelled, not verified: net.UDPConn.ReadMsgUDPAddrPort (MSG_TRUNC when the datagram exceeds the buffer), miscreant AES-SIV-CMAC (answers recomputed by the '
              'harness and matched against the model\'s query), crypto/tls exporter, the recording slog handler and measurements.Filter used to observe the client',
-             'SCION client: driven through MeasureClockOffsetSCION with one client, an empty path and plain NTP (no NTS, no packet authenticator: those branches of the '
-             'model are proved but not exercised); the gopacket/scionproto parse of every crafted datagram is recomputed by the harness with the client\'s parser configuration'],
+             'SCION client: driven through MeasureClockOffsetSCION with one client and an empty path; plain NTP, packet authenticator (DRKey mock keys: every host-host key is '
+             'the zero key, so key selection per host pair is not exercised here - C13 does that with a fake DRKey daemon) and NTS over SCION (key exchange over TLS, not QUIC); '
+             'the gopacket/scionproto parse of every crafted datagram, the timestamp option (udp.TimestampFromOOBData) and the MAC verdict are recomputed by the harness with the '
+             'client\'s parser configuration and scionproto spao'],
     technique=('Coq proof by induction over the list of delivered events of a Gallina model of the receive loop (retry counter, source check, ntp.DecodePacket, nts.DecodePacket / '
                'ProcessResponse with a Section-variable AEAD, origin match, ValidateResponseMetadata / Timestamps), of the three exchanges of a call and of the interleaved-mode '
                'state over call histories: acceptance <-> the conjunction of the property\'s clauses; differential execution of the extracted model on what the real client did '
@@ -34,9 +45,13 @@ CONF = dict(
                 'per-exchange outcome, combined timestamps, offsets and request fields; the oracle is evaluated on the implementation\'s observations'),
     level_note=('Trusted: Coq kernel, hand-written model validated by the correspondence run, extraction, harness (scripted peer, independent NTS field walker, miscreant). '
                 'Crypto symbolic. D-C05a (MeasureClockOffsetSCION returned offset 0 with a nil error when every exchange of its client failed) is fixed in /repo by 3dfc5bf; '
-                'C05_scion_allfail_pinned_refuted keeps the witness for the old return value and the case kind scion.allfail replays it on every run. No axioms.'),
+                'C05_scion_allfail_pinned_refuted keeps the witness for the old return value and the case kind scion.allfail replays it on every run. Observation (what the code '
+                'does, stated as C05_spao_absent_is_unauthenticated, not a clause of the property): a SCION client with Auth.Enabled accepts a response that carries no authenticator '
+                '(or one with another SPI / algorithm / length) exactly like a client without key - only a present authenticator with a wrong MAC is rejected. No axioms.'),
     explanation=('oracle: an exchange that reports the four timestamps must have been delivered a datagram from the server address with >= 48 bytes, origin = the request\'s '
                  'transmit field (or receive field of an interleaved request), leap != 3, version 3|4, mode 4, stratum 1..15, with NTS the request\'s unique identifier and a '
-                 'valid AEAD tag under the S2C key, whose transmit/receive fields are the reported t2/t1 with t1 <= t2; a returned offset is that of an accepted exchange'),
+                 'valid AEAD tag under the S2C key, and - SCION client holding the DRKey host-host key - no packet authenticator for the server\'s SPI and algorithm whose MAC '
+                 'fails to verify, whose transmit/receive fields are the reported t2/t1 with t1 <= t2; a returned offset is that of an accepted exchange; a cookie in the pool '
+                 'after a call comes from the pool before it, a key exchange, or a datagram that passed all of these'),
     timeout_quick=900, timeout_thorough=3000,
 )
